@@ -125,64 +125,20 @@ func c15r3(c *core.Ctx) {
 	}
 	// the driver: function calling both roles
 	for _, f := range m.Funcs {
-		var sArgs, cArgs []string
-		var sGuards, cGuards []string
-		var freeConds, remainConds []string
-		guardOf := func(n ast.Node) string {
-			g := ""
-			core.InspectNoLits(f.Body, func(x ast.Node) bool {
-				if is, ok := x.(*ast.IfStmt); ok {
-					if is.Body.Pos() <= n.Pos() && n.End() <= is.Body.End() {
-						if call, ok := ast.Unparen(is.Cond).(*ast.CallExpr); ok {
-							_ = call
-						}
-						g += "[" + m.ExprString(is.Cond) + "]"
-					} else if is.Else != nil && is.Else.Pos() <= n.Pos() && n.End() <= is.Else.End() {
-						g += "[else " + m.ExprString(is.Cond) + "]"
-					}
-				}
-				return true
-			})
-			return g
-		}
-		stripSelf := func(g, cond string) string { return strings.Replace(g, "["+cond+"]", "", 1) }
+		sArgs, cArgs := map[string]bool{}, map[string]bool{}
+		calls := 0
 		core.InspectNoLits(f.Body, func(x ast.Node) bool {
-			switch y := x.(type) {
-			case *ast.CallExpr:
+			if y, ok := x.(*ast.CallExpr); ok {
 				if _, ok := callTo(m, y, shrink); ok {
-					sArgs = append(sArgs, m.ExprString(y.Args[0]))
-					sGuards = append(sGuards, stripSelf(guardOf(y), m.ExprString(y)))
+					calls++
+					for _, v := range valueChain(m, f, y.Args[0], 0) {
+						sArgs[v] = true
+					}
 				}
 				if _, ok := callTo(m, y, can); ok {
-					cArgs = append(cArgs, m.ExprString(y.Args[0]))
-					cGuards = append(cGuards, stripSelf(guardOf(y), m.ExprString(y)))
-				}
-			case *ast.IfStmt:
-				cond := m.ExprString(y.Cond)
-				if strings.Contains(cond, "isFree") {
-					frees := false
-					rets := false
-					for _, st := range y.Body.List {
-						if rs, ok := st.(*ast.ReturnStmt); ok && len(rs.Results) == 1 && m.ExprString(rs.Results[0]) == "true" {
-							rets = true
-						}
-						ast.Inspect(st, func(z ast.Node) bool {
-							if call, ok := z.(*ast.CallExpr); ok {
-								if k, cal, _ := m.Callee(call); k == core.CallStatic {
-									for _, s := range c.Eff.Stores(cal) {
-										if s.Path.Last() == "table.isFree" {
-											frees = true
-										}
-									}
-								}
-							}
-							return true
-						})
-					}
-					if frees {
-						freeConds = append(freeConds, cond)
-					} else if rets {
-						remainConds = append(remainConds, cond)
+					calls++
+					for _, v := range valueChain(m, f, y.Args[0], 0) {
+						cArgs[v] = true
 					}
 				}
 			}
@@ -191,37 +147,88 @@ func c15r3(c *core.Ctx) {
 		if len(sArgs) == 0 || len(cArgs) == 0 {
 			continue
 		}
-		// compare per branch (branches identified by the enclosing relation test)
-		pair := func(args, guards []string) map[string]string {
-			out := map[string]string{}
-			for i := range args {
-				// normalise the guard to the relation-branch part
-				g := guards[i]
-				branch := "rel"
-				if strings.Contains(g, "[!") && strings.Contains(g, "HasRelations()]") && !strings.Contains(g, "else") {
-					branch = "norel"
+		// (a) the work loop and the scan pass the same minimum capacities
+		same := len(sArgs) == len(cArgs)
+		for k := range sArgs {
+			if !cArgs[k] {
+				same = false
+			}
+		}
+		subject := f.Name + ": capacity arguments"
+		if same {
+			c.OK("C15/R3", subject, c.At(f.Pos()), fmt.Sprintf("work loop and remaining-work scan pass the same minimum capacities %v", keysOf(sArgs)))
+		} else {
+			c.Violation("C15/R3", subject, c.At(f.Pos()), fmt.Sprintf("%s shrinks with minimum capacities %v but the remaining-work scan tests with %v; Shrink would report work it never does (or miss work)", f.Name, keysOf(sArgs), keysOf(cArgs)))
+		}
+		// (b) tables are freed under the same condition under which the scan reports remaining work
+		isFreeing := func(st ast.Stmt) bool {
+			found := false
+			if _, isIf := st.(*ast.IfStmt); isIf {
+				return false
+			}
+			if _, isFor := st.(*ast.ForStmt); isFor {
+				return false
+			}
+			if _, isR := st.(*ast.RangeStmt); isR {
+				return false
+			}
+			ast.Inspect(st, func(z ast.Node) bool {
+				if call, ok := z.(*ast.CallExpr); ok {
+					if k, cal, _ := m.Callee(call); k == core.CallStatic {
+						for _, s := range c.Eff.Stores(cal) {
+							if s.Path.Last() == "table.isFree" {
+								found = true
+							}
+						}
+					}
 				}
-				out[branch] = args[i]
+				return true
+			})
+			return found
+		}
+		isReturnTrue := func(st ast.Stmt) bool {
+			rs, ok := st.(*ast.ReturnStmt)
+			return ok && len(rs.Results) == 1 && m.ExprString(rs.Results[0]) == "true"
+		}
+		canName := can.Obj.Name()
+		shrinkName := shrink.Obj.Name()
+		norm := func(conjs [][]string, dropCalls bool) map[string]bool {
+			out := map[string]bool{}
+			for _, cj := range conjs {
+				var kept []string
+				skip := false
+				for _, a := range cj {
+					if strings.Contains(a, "."+canName+"(") || strings.Contains(a, "."+shrinkName+"(") {
+						if strings.HasSuffix(a, "=T") && dropCalls {
+							skip = true // a disjunct about capacity, not about freeing
+						}
+						continue
+					}
+					// bookkeeping atoms of the time box
+					if strings.Contains(a, "anyFound") || strings.Contains(a, "stopAfter") || strings.Contains(a, "time.") {
+						continue
+					}
+					kept = append(kept, a)
+				}
+				if !skip && len(kept) > 0 {
+					out[normConj(kept)] = true
+				}
 			}
 			return out
 		}
-		sp, cp := pair(sArgs, sGuards), pair(cArgs, cGuards)
-		okAll := true
-		for br, sa := range sp {
-			subject := fmt.Sprintf("%s: capacity argument (%s branch)", f.Name, br)
-			if cp[br] == sa {
-				c.OK("C15/R3", subject, c.At(f.Pos()), "work loop and remaining-work scan pass the same minimum capacity "+sa)
-			} else {
-				okAll = false
-				c.Violation("C15/R3", subject, c.At(f.Pos()), fmt.Sprintf("%s shrinks with minimum %s but the remaining-work scan tests with %s; Shrink would report work it never does (or miss work)", f.Name, sa, cp[br]))
+		freeConds := norm(pathConds(m, f, f.Body.List, isFreeing), false)
+		remainConds := norm(pathConds(m, f, f.Body.List, isReturnTrue), true)
+		subject = f.Name + ": free condition"
+		eq := len(freeConds) == len(remainConds) && len(freeConds) > 0
+		for k := range freeConds {
+			if !remainConds[k] {
+				eq = false
 			}
 		}
-		_ = okAll
-		subject := f.Name + ": free condition"
-		if len(freeConds) == 1 && len(remainConds) == 1 && freeConds[0] == remainConds[0] {
-			c.OK("C15/R3", subject, c.At(f.Pos()), "tables are freed under the same condition the remaining-work scan reports: "+freeConds[0])
+		if eq {
+			c.OK("C15/R3", subject, c.At(f.Pos()), fmt.Sprintf("tables are freed under the same condition the remaining-work scan reports: %v", keysOf(freeConds)))
 		} else {
-			c.Violation("C15/R3", subject, c.At(f.Pos()), fmt.Sprintf("%s frees tables under %v but reports remaining work under %v", f.Name, freeConds, remainConds))
+			c.Violation("C15/R3", subject, c.At(f.Pos()), fmt.Sprintf("%s frees tables under %v but reports remaining work under %v", f.Name, keysOf(freeConds), keysOf(remainConds)))
 		}
 	}
 	// the two roles compute the same target and compare with opposite polarity
@@ -346,4 +353,13 @@ func c15r4(c *core.Ctx) {
 			c.Violation("C15/R4", subject, c.At(f.Pos()), f.Name+": "+why+"; the documented capacity bound after Shrink would not hold for initial capacities that are not powers of two")
 		}
 	}
+}
+
+func keysOf(m map[string]bool) []string {
+	var out []string
+	for k := range m {
+		out = append(out, k)
+	}
+	sortStrings(out)
+	return out
 }
